@@ -27,7 +27,7 @@ class C01(Spec):
                   "output byte for byte, including the SHA-256 root hash of every commit (pins rotations/split keys), height, "
                   "size, Get, index, GetByIndex, Has and every range iteration; property predicate evaluated on the "
                   "implementation against an abstract map per root.")
-    level_note = ("load_save_or_collision is the full statement '... or Collision H' for stores without the height prefix (node key = "
+    level_note = ("load_save_or_collision is the full statement '... or CollisionIn H (strings hashed in the tree and in the nodes saved before)' — a located collision, the unlocated one being trivially true for 32-byte outputs — for stores without the height prefix (node key = "
                   "hash of content; `Consistent` derived from merkle_binding + KeyMin, which set keeps); with the prefix the same root "
                   "hash can carry other child keys, so there load_save_partial keeps its explicit `Consistent`; the end-to-end chain Store.Set histories -> "
                   "reads at every old root is carried by the differential run and the predicate. Node.remove (Tree.Remove / "
